@@ -317,6 +317,8 @@ class Folder(FileSystemItemABC):
 
         file.restore()
         self.files[file.uuid] = file
+        # a newer file of the same name may have taken over the request route while this one was deleted
+        self._file_request_manager.add_request(file.name, RequestType(func=file._request_manager))
         # file.restore() has already cleared file.deleted, so do not test it here
         self.deleted_files.pop(file.uuid, None)
         return True
